@@ -50,7 +50,7 @@ def gen_gene(rng, lo, hi, idx, seqname, single_isoform):
                 n = specs.blocks_len(t["cds_starts"], t["cds_ends"])
                 f0 = {"ZERO": 0, "ONE": 1, "TWO": 2}[t["cds_frames"][0 if strand == "PLUS" else -1]]
                 first = 0 if strand == "PLUS" else -1
-                if n - f0 < 3 or t["cds_ends"][first] - t["cds_starts"][first] <= f0:
+                if n - f0 < 3:
                     continue
             break
         else:
@@ -473,10 +473,13 @@ def check_biopython(case, imp):
                             if ind is None:
                                 if tr:
                                     pass  # ambiguous bases: either outcome is documented
-                            elif not tr:
-                                bad("translation_missing", f"strand {t['strand']}")
-                            elif tr[0] != ind:
-                                bad("translation_mismatch", f"file={tr[0][:30]} independent={ind[:30]} codon_start={cs_i} source_frame={f0} strand {t['strand']}")
+                            elif not tr or tr[0] != ind:
+                                what = "translation_missing" if not tr else "translation_mismatch"
+                                first = 0 if t["strand"] == "PLUS" else -1
+                                if t["cds_ends"][first] - t["cds_starts"][first] <= f0 and f0 > 0:
+                                    # the start offset is as long as or longer than the 5'-most CDS block (see known findings)
+                                    what += "(start offset swallows the 5'-most CDS block)"
+                                bad(what, (f"file={tr[0][:30]} independent={ind[:30]} " if tr else "") + f"codon_start={cs_i} source_frame={f0} strand {t['strand']}")
                         elif tr:
                             bad("translation_unrequested")
         for c in spec["feature_collections"]:
